@@ -448,6 +448,107 @@ def strategy_for(cls):
     return strat
 
 
+# ----------------------------------------------------------------------- two resources, nested with-blocks
+def run_nested(case):
+    """a process holds a slot of a plain resource B inside the with-block of a PreemptiveResource A; it is preempted on A. However
+    the Interrupt travels (caught inside B's block, between the blocks, or outside both), B's slot is handed on the moment the
+    holder leaves B's with-block. Reference for B: FIFO multi-server with known holding times."""
+    import heapq
+    env = Environment()
+    A = PreemptiveResource(env, capacity=1)
+    B = {"Resource": Resource, "PriorityResource": PriorityResource, "PreemptiveResource": PreemptiveResource}[case["b_cls"]](
+        env, capacity=case["cap_b"])
+    t1, T, T2, mode = case["t1"], case["hold"], case["hold_after"], case["mode"]
+    log, problems = [], []
+
+    def holder():
+        try:
+            with A.request(priority=5) as ra:
+                yield ra
+                try:
+                    with B.request() as rb:
+                        yield rb
+                        log.append(("grant", "holder", env.now))
+                        try:
+                            yield env.timeout(T)
+                        except Interrupt:
+                            if mode != "inside_b":
+                                raise
+                            yield env.timeout(T2)
+                    log.append(("left_b", env.now))
+                except Interrupt:
+                    log.append(("left_b", env.now))
+                    if mode != "between":
+                        raise
+                    yield env.timeout(T2)
+        except Interrupt:
+            if mode != "outside":
+                problems.append("the Interrupt left the holder although it had been caught")
+
+    def preemptor():
+        yield env.timeout(t1)
+        with A.request(priority=1, preempt=True) as r:
+            yield r
+            log.append(("grant_a", "preemptor", env.now))
+            yield env.timeout(1)
+
+    def waiter(i, at, dur):
+        yield env.timeout(at)
+        with B.request() as r:
+            yield r
+            log.append(("grant", f"w{i}", env.now))
+            yield env.timeout(dur)
+    env.process(holder())
+    env.process(preemptor())
+    for i, (at, dur) in enumerate(case["waiters"]):
+        env.process(waiter(i, at, dur))
+    try:
+        n = 0
+        while env.peek() != inf:
+            n += 1
+            if n > 5000:
+                raise Inconclusive("step budget")
+            env.step()
+    except (Inconclusive, WatchdogTrip):
+        raise
+    except BaseException as e:
+        raise crash("C06.no_exception", e, f"nested with-blocks, mode {mode}")
+    if problems:
+        raise Violation("C06.preempt_delivery", problems[0], "C06.preempt_delivery/nested")
+    # reference: the holder keeps B from 0 until it leaves B's block (t1, or t1 + T2 when it catches the Interrupt inside B's block;
+    # T if the preemption comes too late)
+    pre = t1 < T
+    d_holder = (t1 + T2 if mode == "inside_b" else t1) if pre else T
+    reqs = sorted([(0, 0, d_holder, "holder")] + [(at, 1 + i, dur, f"w{i}") for i, (at, dur) in enumerate(case["waiters"])])
+    free = [0] * case["cap_b"]
+    want = {}
+    for arr, _, dur, name in reqs:
+        g = max(arr, heapq.heappop(free))
+        want[name] = g
+        heapq.heappush(free, g + dur)
+    got = {e[1]: e[2] for e in log if e[0] == "grant"}
+    if got != want:
+        raise Violation("C06.no_idle_slot", f"slots of B (capacity {case['cap_b']}) were granted at {got}, a FIFO resource whose first "
+                                            f"holder leaves its with-block at t={d_holder} grants at {want} (mode {mode}, preempted on A at "
+                                            f"t={t1})", "C06.no_idle_slot/nested")
+    if B.count or A.count or B.queue or A.queue:
+        raise Violation("C06.users", f"after the run: A {A.count} users/{len(A.queue)} waiting, B {B.count} users/{len(B.queue)} waiting",
+                        "C06.users/nested")
+    classes = {"nested with-blocks: Interrupt caught " + {"inside_b": "inside the inner block", "between": "between the blocks",
+                                                          "outside": "outside both blocks"}[mode]}
+    if pre and any(at <= d_holder for at, _ in case["waiters"]):
+        classes.add("waiter inherits the slot the preempted holder gave up")
+    return {"nontrivial": pre and len(case["waiters"]) >= 1, "classes": sorted(classes)}
+
+
+def nested_strategy(tier):
+    return st.fixed_dictionaries({
+        "b_cls": st.sampled_from(["Resource", "Resource", "PriorityResource", "PreemptiveResource"]),
+        "cap_b": st.sampled_from([1, 1, 2]), "t1": st.sampled_from([1, 2, 3, 0.5, 8]), "hold": st.sampled_from([4, 6, 5]),
+        "hold_after": st.sampled_from([0, 1, 2.5]), "mode": st.sampled_from(["outside", "between", "inside_b"]),
+        "waiters": st.lists(st.tuples(st.sampled_from([0, 0.5, 1, 2, 3, 4]), st.sampled_from([1, 2, 0.5])).map(list), min_size=1, max_size=4)})
+
+
 PROP = Property(
     "C06",
     rule=("Histories of request(priority, preempt)/release/cancel/with-exit(normal|exception)/release-of-past-request/"
@@ -461,7 +562,9 @@ PROP = Property(
           "given to the preemptor in the same step; a head preempting request facing a strictly worse user must evict; "
           "non-preemptive classes never interrupt. Non-trivial = a grant made while another request kept waiting AND a "
           "release/cancel/with-exit with a non-empty queue (for PreemptiveResource also >=1 eviction and >=1 refused "
-          "equal-key preemption)."),
+          "equal-key preemption). Facet nested: a process holding a slot of a second resource B inside the with-block of a "
+          "PreemptiveResource is preempted; B's grants must be those of a FIFO resource whose first holder leaves its with-block "
+          "at the instant the Interrupt carries it out (or later, when it catches the Interrupt inside)."),
     facets=[
         Facet("Resource", strategy_for("Resource"), run_case, quick=500, thorough=4000,
               essential=["grant_while_others_wait", "cancel_head", "release_queue", "coinciding_ops", "with_exit_user_queue"]),
@@ -470,6 +573,10 @@ PROP = Property(
         Facet("PreemptiveResource", strategy_for("PreemptiveResource"), run_case, quick=700, thorough=5000,
               essential=["eviction", "equal_key_preempt_refused", "preempted_delivered", "grant_while_others_wait",
                          "eviction_among_equal_worst_users", "deferred_eviction"]),
+        Facet("nested", nested_strategy, run_nested, quick=400, thorough=3000,
+              essential=["nested with-blocks: Interrupt caught outside both blocks", "nested with-blocks: Interrupt caught between the blocks",
+                         "nested with-blocks: Interrupt caught inside the inner block",
+                         "waiter inherits the slot the preempted holder gave up"]),
     ],
     assumptions=["each actor holds or awaits at most one request at a time (statement's precondition)",
                  "actors never terminate while holding"],
